@@ -21,7 +21,10 @@
     those). Declaration order is free in evaluation: a program whose declarations stand at other
     positions, with every use re-indexed, evaluates to the same result up to the positions
     recorded in the keys of implicit components and in function values
-    ([C05_declaration_order_is_free]). Both semantics (the code's and the lexical one).
+    ([C05_declaration_order_is_free]); the same holds when declarations move to other modules
+    (a dependency-closed group moved into an imported module: the resolved trees differ only in
+    the positions of declarations and rec expressions, [C05_moving_declarations_is_free]).
+    Both semantics (the code's and the lexical one).
     Proved here (partial), for every syntax tree and environment: parenthesising a
     sub-expression and renaming identifiers by any injective renaming leave the binding
     relation computed by name resolution unchanged (hence acceptance by the resolver and the
@@ -132,16 +135,25 @@ Example C05_inlining_nonvacuous :
                               (map (InlineProofs.inline_expr 0%N 0%N d) InlineProofs.ex_inl_rs) = Eval.Ok r.
 Proof. exact InlineProofs.ex_inlining. Qed.
 
-(** permuting the declarations of the modules *)
+(** moving declarations: inside their module (order) or to another module *)
 Theorem C05_declaration_order_is_free : forall fd : N -> N -> N, (forall m i j, fd m i = fd m j -> i = j) ->
   forall lx P P' n rs, KeyMap.permuted fd P P' ->
-  Eval.eval_program lx P' n (map (KeyMap.km_expr fd) rs) = KeyMap.rmap (KeyMap.km_result KeyMap.ids fd) (Eval.eval_program lx P n rs).
+  Eval.eval_program lx P' n (map (KeyMap.km_expr (KeyMap.within fd) KeyMap.idp) rs) =
+  KeyMap.rmap (KeyMap.km_result KeyMap.ids (KeyMap.within fd) KeyMap.idp) (Eval.eval_program lx P n rs).
 Proof. exact KeyMap.declaration_order_is_free. Qed.
 Print Assumptions C05_declaration_order_is_free.
+
+Theorem C05_moving_declarations_is_free : forall fdm frm : N -> N -> N * N,
+  (forall m i m' i', fdm m i = fdm m' i' -> m = m' /\ i = i') -> (forall m i m' i', frm m i = frm m' i' -> m = m' /\ i = i') ->
+  forall lx P P' n rs, KeyMap.moved fdm frm P P' ->
+  Eval.eval_program lx P' n (map (KeyMap.km_expr fdm frm) rs) =
+  KeyMap.rmap (KeyMap.km_result KeyMap.ids fdm frm) (Eval.eval_program lx P n rs).
+Proof. exact KeyMap.moving_declarations_is_free. Qed.
+Print Assumptions C05_moving_declarations_is_free.
 
 Example C05_declaration_order_nonvacuous :
   KeyMap.permuted KeyMap.swap01 KeyMap.ex_perm_P KeyMap.ex_perm_P' /\ KeyMap.ex_perm_P' <> KeyMap.ex_perm_P /\
   exists r, Eval.eval_program false KeyMap.ex_perm_P 50 KeyMap.ex_perm_rs = Eval.Ok r /\
-            Eval.eval_program false KeyMap.ex_perm_P' 50 (map (KeyMap.km_expr KeyMap.swap01) KeyMap.ex_perm_rs) =
-            Eval.Ok (KeyMap.km_result KeyMap.ids KeyMap.swap01 r).
+            Eval.eval_program false KeyMap.ex_perm_P' 50 (map (KeyMap.km_expr (KeyMap.within KeyMap.swap01) KeyMap.idp) KeyMap.ex_perm_rs) =
+            Eval.Ok (KeyMap.km_result KeyMap.ids (KeyMap.within KeyMap.swap01) KeyMap.idp r).
 Proof. split; [exact KeyMap.ex_permuted|exact KeyMap.ex_permute_declarations]. Qed.
